@@ -560,6 +560,13 @@ func (ft *fnTrans) envAt(h Heap, hdr *loopInfo, phiBind map[*ssa.Phi]string) *En
 				}
 				return TV{"(+ " + t + " 1)", tInt}, true
 			}
+			if name == "_pos" {
+				// the byte position a range-over-string loop has reached (start of the rune about to be decoded)
+				if comp, _, ok := ft.stringRangeOf(hdr); ok {
+					return TV{ft.vc.get(e.heap, comp), tInt}, true
+				}
+				sfail("_pos: not a range-over-string loop")
+			}
 			if name == "_s" {
 				// the collection a range-over-slice loop iterates (an unnamed temporary in `range f()`)
 				if coll := ft.rangedSlice(hdr); coll != nil {
@@ -1219,6 +1226,12 @@ func (ft *fnTrans) loopHead(li *loopInfo, b *ssa.BasicBlock, h *Heap, entryPreds
 	if li.rangeIx != nil && ft.isCanonicalRangeIndex(li) {
 		vc.assume("(>= " + li.phiTerm[li.rangeIx] + " (- 1))")
 	}
+	// implicit invariant of range-over-string loops: the hidden byte position starts at 0, only grows, and never
+	// passes the end of the string (next() advances it by the width of a rune that lies inside the string)
+	if comp, str, ok := ft.stringRangeOf(li); ok {
+		pos := vc.get(*h, comp)
+		vc.assume(and("(<= 0 "+pos+")", "(<= "+pos+" (slen "+str+"))"))
+	}
 	li.heapAt = h.clone()
 	// 3. assume invariants
 	envHead := ft.envAt(*h, li, li.phiTerm)
@@ -1400,4 +1413,23 @@ func (ft *fnTrans) checkInvariantWriters() {
 		}
 		vc.oblige("closed", "pkginv.writer."+shortFuncName(key), "true", goal, "function "+strings.TrimPrefix(key, modulePath+"/")+" stores to a package variable: it must be under a verified contract (package invariants)", 0)
 	}
+}
+
+// stringRangeOf: the position component and the string term of a range-over-string loop (Next sits in the header).
+func (ft *fnTrans) stringRangeOf(li *loopInfo) (comp, str string, ok bool) {
+	if li == nil {
+		return "", "", false
+	}
+	for _, ins := range li.header.Instrs {
+		nx, isNext := ins.(*ssa.Next)
+		if !isNext || !nx.IsString {
+			continue
+		}
+		if r, isRange := nx.Iter.(*ssa.Range); isRange {
+			if rs := ft.rangeSt[r]; rs != nil && !rs.isMap {
+				return rs.comp, rs.x, true
+			}
+		}
+	}
+	return "", "", false
 }
